@@ -8,6 +8,7 @@ fallback and not to node.print.  The round trip itself over Unicode, numbers and
 """
 import ast
 
+from ..astx import code
 from ..astx import walk_no_nested, dotted, call_name, self_attr, func_params, ancestors
 from ..core import norm, Inconclusive
 from .c06 import e9_json, encoder_on_all_paths
@@ -67,7 +68,7 @@ def e9_csv(ctx):
     src_ok = ok_flow = False
     for g, call in region:
         wr = [c for c in walk_no_nested(g.node) if isinstance(c, ast.Call) and isinstance(c.func, ast.Attribute) and c.func.attr == "writerow"]
-        if not wr or "csv.writer(" not in ast.unparse(g.node).replace(" ", ""):
+        if not wr or "csv.writer(" not in code(g.node).replace(" ", ""):
             continue
         arg = wr[0].args[0] if wr[0].args else None
         if not (isinstance(arg, ast.List) and len(arg.elts) == 1):
@@ -103,7 +104,7 @@ def e9_csv(ctx):
                       "containing commas, quotes or newlines would not parse back")
     rq = m.need_class("CSVRowFormatter")
     init = m.method(rq, "__init__")
-    if "super().__init__('','',',')" in ast.unparse(init.node).replace(" ", ""):
+    if "super().__init__('','',',')" in code(init.node).replace(" ", ""):
         ctx.proved("E9-csv", init.file, "CSVRowFormatter.__init__", init.node, "column delimiter", "columns are joined with ','")
     else:
         ctx.violation("E9-csv", init.file, "CSVRowFormatter.__init__", init.node, "column delimiter", "CSV rows are no longer delimited by ','")
@@ -294,7 +295,7 @@ def r12e(ctx):
         return
     uses = [x for x in walk_no_nested(f.node) if isinstance(x, ast.Attribute) and x.attr in ("tag", "attrib") and isinstance(x.ctx, ast.Load)]
     handles = any(isinstance(c, ast.Constant) and isinstance(c.value, str) and ("{" in c.value or "}" in c.value) for c in ast.walk(f.node)) \
-        or "start-ns" in ast.unparse(f.node) or "register_namespace" in ast.unparse(f.node)
+        or "start-ns" in code(f.node) or "register_namespace" in code(f.node)
     ctx.floor("R12e", len(uses), 2, "element names taken from ElementTree in xml.build_tree")
     for x in uses:
         if handles:
